@@ -17,9 +17,16 @@ open SteelVerif.C16
 #print axioms known_unpublished_tight
 #print axioms round_rank_decreases
 #print axioms stop_round_terminates
+#print axioms roundRank_begin
+#print axioms step_other
+#print axioms step_self_nonstep
+#print axioms join_exactly_once
 #print axioms join_once
 #print axioms channel_fifo_per_sender
 #print axioms channel_example
 #print axioms join_example
 #print axioms blocking_paths_publish
 #print axioms callpaths_nonempty
+#print axioms scan_exclusive_fixed
+#print axioms env_coherent_fixed
+#print axioms guard_no_spawn_in_round
